@@ -5,7 +5,6 @@ import (
 	"os"
 	"slices"
 	"sort"
-	"strings"
 	"sync"
 
 	"github.com/NethermindEth/juno/db"
@@ -161,8 +160,11 @@ func (d *Database) NewIterator(prefix []byte, withUpperBound bool) (db.Iterator,
 		vals = make([][]byte, 0, len(d.db))
 	)
 
+	// Same bounds as the pebble backends: the prefix is the (inclusive) lower bound;
+	// the upper bound, when requested, is the end of the prefix range, and a prefix
+	// without successor (empty or all 0xff) has none.
 	for k := range d.db {
-		if strings.HasPrefix(k, pr) && (!withUpperBound || k < ub) {
+		if k >= pr && (upperBound == nil || k < ub) {
 			keys = append(keys, k)
 		}
 	}
